@@ -102,6 +102,7 @@ def fmtParsed (r : Except PErr SParsed) : String :=
 /--
     parse <text>            → ok <var> <n> <Num>… | err Kind     (all entry points answer alike)
     eval  <spoly> <x>       → ok f…                              (eval_simple_polynomial & friends)
+    evalm <spoly> <k> {<name> <x>}*  → ok f… | err TooManyVariables  (eval_multivariate, k bindings)
 -/
 def handle (line : String) : String :=
   let p : P String := do
@@ -116,6 +117,17 @@ def handle (line : String) : String :=
       let _tag ← tok
       let q ← spoly float; let x ← float
       return "ok " ++ fmtF (evalSimple q.coeffs x)
+    | "evalm" => do
+      -- `eval_multivariate` with k bindings: the bindings go into a map (a repeated name keeps its last
+      -- value); exactly one entry is required and its value is the evaluation point, whatever its name
+      let _tag ← tok
+      let q ← spoly float
+      let k ← nat
+      let bs ← many k (do let n ← name; let x ← float; return (n, x))
+      let m := bs.foldl (fun (acc : List (String × Float)) b => acc.filter (fun a => a.1 ≠ b.1) ++ [b]) []
+      match m with
+      | [(_, x)] => return "ok " ++ fmtF (evalSimple q.coeffs x)
+      | _ => return "err TooManyVariables"
     | "pe" => do
       -- parse then evaluate: decided by the oracle (the answer is not compared)
       let _s ← chars; let _x ← float
